@@ -451,8 +451,8 @@ fn run_case<K: Kit>(ctx: &Ctx, b: &mut Batch, kit: &K, case: &PrmCase) {
 
 pub fn run(tier: Tier, seed: u64) -> i32 {
     let ctx = Ctx::new("C18", tier, seed, "exploration");
-    let n_random = tier.pick(6_000, 80_000);
-    let n_worlds_exh = tier.pick(6, 48);
+    let n_random = tier.pick(6_000, 250_000);
+    let n_worlds_exh = tier.pick(6, 64);
     let shards = 64;
     par_shards(shards, crate::util::n_threads(), |sh| {
         let mut b = Batch::default();
